@@ -350,8 +350,8 @@ theorem C09_merge (c : HdrCfg) (info : Extracted) (header h : Text)
     (hok : createHeader c info header = .ok h) :
     (∀ x, x ∈ mergeLines (unionTexts info.cpr (extractRaw header).cpr) ↔ x ∈ (extractRaw h).cpr) ∧
     (∀ l m, (l ∈ info.cpr ∨ l ∈ (extractRaw header).cpr) → searchLine l = some m →
-      lineFor (parseLines Generated.endRe (unionTexts info.cpr (extractRaw header).cpr)) m.statement ∈ (extractRaw h).cpr ∧
-      m.statement <:+ lineFor (parseLines Generated.endRe (unionTexts info.cpr (extractRaw header).cpr)) m.statement) := by
+      lineFor (parseLines Generated.endRe (sortTexts (unionTexts info.cpr (extractRaw header).cpr))) m.statement ∈ (extractRaw h).cpr ∧
+      m.statement <:+ lineFor (parseLines Generated.endRe (sortTexts (unionTexts info.cpr (extractRaw header).cpr))) m.statement) := by
   unfold createHeader at hok
   have he : header.isEmpty = false := by cases header <;> simp_all
   simp only [he, Bool.false_eq_true, if_false] at hok
@@ -363,8 +363,8 @@ theorem C09_merge (c : HdrCfg) (info : Extracted) (header h : Text)
           cpr := mergeLines (unionTexts info.cpr (extractRaw header).cpr) } = .ok h := hok
     have h1 := (C07.C07_guard c _ h hok').1
     refine ⟨h1, fun l m hl hm => ?_⟩
-    have := C20.C20_merge_no_holder_lost Generated.endRe (unionTexts info.cpr (extractRaw header).cpr) l m
-      (mem_unionTexts.mpr hl) hm
+    have := C20.C20_merge_no_holder_lost Generated.endRe (sortTexts (unionTexts info.cpr (extractRaw header).cpr)) l m
+      ((C10Order.sortTexts_perm _).mem_iff.mpr (mem_unionTexts.mpr hl)) hm
     exact ⟨(h1 _).mp this.1, this.2⟩
   · simp only [hp, Bool.not_false, if_true] at hok
     cases hok
